@@ -170,7 +170,8 @@ def rawLayerOfJson (j : Json) : P RawLayer := do
       | .ok (.arr xs) => do pure (some (← xs.toList.mapM fun x => x.getStr?))
       | _ => pure none
     let ids ← jStrs (jFieldD j "ids" (.arr #[]))
-    pure { k, cls, fields, params, consts, inherit, exclude, ids }
+    let inverses ← (← objPairs (jFieldD j "inverses" .null)).mapM fun (n, s) => rawFieldOfJson (cls ++ ".inv") n s
+    pure { k, cls, fields, params, consts, inherit, exclude, ids, inverses }
   | _ =>
     let names ← match j.getObjVal? "names" with
       | .ok (.arr xs) => do pure (some (← xs.toList.mapM fun x => x.getStr?))
